@@ -9,6 +9,7 @@ mkdir -p /root/scratch
 git -C /repo worktree add -f $wt HEAD -q || exit 2
 git -C $wt apply $out/patch.diff || { echo "patch does not apply"; git -C /repo worktree remove --force $wt; exit 2; }
 VERIF_REPO=$wt ./check $prop > $out/check_with_patch.log 2>&1; rcc=$?
+/verif/tools/regen_from_repo.sh > /dev/null
 git -C /repo worktree remove --force $wt
 echo "check $prop with $name: rc=$rcc"
 grep -E "VIOLATION|^\[" $out/check_with_patch.log | cut -c1-200 | head -3
